@@ -435,6 +435,53 @@ class Gen:
         return {"family": "REUSE2" if two_sided else "REUSE%d" % side0, "flavour": flavour, "shape": shape, "base": base,
                 "base_side": base_side, "sched": sched, "expect": m.t, "reused": reused}
 
+    def case_renclash(self, flavour, shape, nops):
+        """RENCLASH: one side renames a synchronised file to a name that the other side gives to a brand-new file in the same
+        window.  HF by the letter (the rename's target is touched by the other side); no exact expectation (which file keeps
+        the name is the engine's choice): the families' convergence / no-loss oracles apply."""
+        rng = self.rng
+        base_side = rng.randrange(2)
+        base, m = self.base_tree(base_side, 0)
+        files = []
+        par = ""
+        if rng.random() < 0.4:
+            par = self.names.fresh("b")
+            op = {"side": base_side, "op": "mkdir", "path": par}
+            assert m.apply(op)
+            op["obj"] = m.new_obj(par)
+            base.append(op)
+        for _ in range(rng.randrange(2, 5)):
+            nm = self.names.fresh("b")
+            path = (par + "/" + nm) if par and rng.random() < 0.6 else nm
+            op = {"side": base_side, "op": "create", "path": path, "data": self.contents.fresh(base_side)}
+            assert m.apply(op)
+            op["obj"] = m.new_obj(path)
+            base.append(op)
+            files.append(path)
+        a = rng.randrange(2)
+        b = 1 - a
+        src = rng.choice(files)
+        d = m.parent(src)
+        nm = self.names.fresh("c")
+        target = (d + "/" + nm) if d else nm
+        ops_a = [{"side": a, "op": "rename", "path": src, "to": target, "obj": m.obj.get(src)}]
+        ops_b = [{"side": b, "op": "create", "path": target, "data": self.contents.fresh(b), "obj": None}]
+        for _ in range(max(0, nops - 2)):
+            s_ = rng.randrange(2)
+            nm2 = self.names.fresh("lr"[s_])
+            (ops_a if s_ == a else ops_b).append({"side": s_, "op": "create", "path": nm2, "data": self.contents.fresh(s_), "obj": None})
+        seq = []
+        x, y = list(ops_a), list(ops_b)
+        while x or y:
+            srcl = x if (x and (not y or rng.random() < 0.5)) else y
+            seq.append(srcl.pop(0))
+        sched = []
+        for op in seq:
+            sched.append(["U", op])
+            sched.extend(g for g in self.gap(shape) if g != ["Q"])
+        return {"family": "RENCLASH", "flavour": flavour, "shape": shape, "base": base, "base_side": base_side, "sched": sched,
+                "expect": None}
+
     def case_remk(self, flavour, shape, side, nops):
         """REMK(side): folders are removed and made again under the same name within one window (a new object at an old path),
         some with new content inside, among ordinary operations.  One-sided; exact mirror expected."""
